@@ -343,6 +343,14 @@ Definition ends_of (m : omodel) : Z * Z := (match om_exons m with e :: _ => fst 
 Definition alt_end_duplicates (m : omodel) (others : list omodel) : bool :=
   forallb (fun o => negb (same_chain_same_strand m o) ||
                     (Z.of_nat (length (om_exons m)) <=? 2) || negb ((fst (ends_of m) =? fst (ends_of o)) && (snd (ends_of m) =? snd (ends_of o)))) others.
+(* sharper description of the duplicates the algorithm is specified to leave: models of at most two exons (detect_similar_isoforms never
+   compares them), or longer pairs for which the assigner - replayed on the pair in both directions the way detect_similar_isoforms calls
+   it - gives no matching assignment.  A longer pair that the assigner WOULD collapse in some direction is not the known deviation.
+   verdict = Some (m matches o, o matches m), None when no verdict is available *)
+Definition left_by_design (m : omodel) (ov : omodel * option (bool * bool)) : bool :=
+  negb (same_chain_same_strand m (fst ov)) || (Z.of_nat (length (om_exons m)) <=? 2) ||
+  match snd ov with Some (a, b) => negb a && negb b | None => false end.
+Definition duplicates_left_by_design (m : omodel) (others : list (omodel * option (bool * bool))) : bool := forallb (left_by_design m) others.
 (* table clause: every transcript named in the read table is in the GTF; in an annotation-free run every transcript of the GTF is novel *)
 Definition table_ok (table_tids gtf_tids : list Z) : bool := forallb (fun t => (t =? -1) || zmem t gtf_tids) table_tids.
 
